@@ -46,6 +46,7 @@ func main() {
 	listRules := flag.Bool("list", false, "list properties and rules")
 	manifest := flag.Bool("manifest", false, "print MANIFEST.json for the registered properties")
 	evalAll := flag.Bool("eval", false, "load once, run every rule, print which properties fire (used to evaluate variants)")
+	rulesMD := flag.Bool("rules-md", false, "print the rule catalogue (RULES.md) generated from the registered rules and properties")
 	normDump := flag.Bool("normalize-dump", false, "print the normalised (helper-inlined) source files and the report")
 	flag.Parse()
 	if *manifest {
@@ -54,6 +55,10 @@ func main() {
 	}
 	if *evalAll {
 		os.Exit(doEvalAll(rc))
+	}
+	if *rulesMD {
+		emitRulesMD()
+		return
 	}
 	if *normDump {
 		ov, rep := normalizeOverlay(rc.repo, "", nil)
@@ -261,16 +266,16 @@ func runProperty(rc runConfig, spec *PropertySpec) int {
 	}
 
 	cov := map[string]interface{}{
-		"obligations": total,
-		"discharged":  discharged,
-		"rule": "every rule instance (obligation) is keyed rule@construct; an obligation is discharged only if the rule's evidence was found on the resolved SSA/CFG of the current tree; undecided shapes, unresolved anchors, load errors and checker panics fail the run",
-		"rules":        ruleSummaries,
-		"samples":      samples,
-		"explanation":  spec.Explanation,
-		"not_decided":  spec.NotDecided,
-		"checker_cmd":  fmt.Sprintf("./check %s %s", spec.ID, rc.tier),
-		"trusted_base": trustedBase,
-		"exhaustive":   false,
+		"obligations":            total,
+		"discharged":             discharged,
+		"rule":                   "every rule instance (obligation) is keyed rule@construct; an obligation is discharged only if the rule's evidence was found on the resolved SSA/CFG of the current tree; undecided shapes, unresolved anchors, load errors and checker panics fail the run",
+		"rules":                  ruleSummaries,
+		"samples":                samples,
+		"explanation":            spec.Explanation,
+		"not_decided":            spec.NotDecided,
+		"checker_cmd":            fmt.Sprintf("./check %s %s", spec.ID, rc.tier),
+		"trusted_base":           trustedBase,
+		"exhaustive":             false,
 		"known_findings_matched": knownHits,
 		"fixed_findings_on_file": fixed,
 	}
@@ -406,4 +411,48 @@ func doEvalAll(rc runConfig) int {
 		fmt.Println("== NO CHECK FIRES")
 	}
 	return 0
+}
+
+// emitRulesMD prints the catalogue of rules: id, title, instance floor, claiming properties; then
+// per property its level, rule set, what the rule set decides and what it does not.
+func emitRulesMD() {
+	claims := map[string][]string{}
+	for _, id := range sortedKeys(properties) {
+		for _, r := range properties[id].Rules {
+			claims[r] = append(claims[r], id)
+		}
+	}
+	fmt.Println("# Rule catalogue (generated by `bin/ssecheck -rules-md`; do not edit)")
+	fmt.Println()
+	fmt.Println("One line per rule the checker registers: the title is the rule's statement, the floor is the number of")
+	fmt.Println("instances confirmed by reading below which the rule reports itself vacuous, and the last column lists the")
+	fmt.Println("properties that claim it. The second part gives, per property, what its rule set decides and what it leaves open.")
+	fmt.Println()
+	fmt.Println("| rule | statement | floor | claimed by |")
+	fmt.Println("|---|---|---|---|")
+	ids := sortedKeys(ruleRegistry)
+	sort.Slice(ids, func(i, j int) bool {
+		a, b := ids[i], ids[j]
+		var a1, a2, b1, b2 int
+		fmt.Sscanf(a, "R%d.%d", &a1, &a2)
+		fmt.Sscanf(b, "R%d.%d", &b1, &b2)
+		if a1 != b1 {
+			return a1 < b1
+		}
+		return a2 < b2
+	})
+	for _, id := range ids {
+		r := ruleRegistry[id]
+		fmt.Printf("| %s | %s | %d | %s |\n", id, strings.ReplaceAll(r.Title, "|", "\\|"), r.Floor, strings.Join(claims[id], " "))
+	}
+	fmt.Println()
+	for _, id := range sortedKeys(properties) {
+		p := properties[id]
+		fmt.Printf("## %s (level %s)\n\n", id, p.Level)
+		fmt.Printf("Rules: %s\n\n", strings.Join(p.Rules, " "))
+		fmt.Printf("Decides: %s\n\n", p.Explanation)
+		if p.NotDecided != "" {
+			fmt.Printf("Not decided: %s\n\n", p.NotDecided)
+		}
+	}
 }
